@@ -8,7 +8,7 @@ from . import coqrun
 
 
 def run_stream(run, comp, cases, rundir, name, case_type, code_fn, prop_bits, corr_bits=(0,),
-               shrink=True, stream_label=None, max_report=3, shard=300):
+               shrink=True, stream_label=None, max_report=3, shard=300, known=None):
     """run: report.Run; comp: component module with run_impl/render/BITS/nontrivial/jsonable
     (optionally shrink(case) -> iterable of smaller cases).
     prop_bits: checker bits whose failure on an implementation output is a failing input for
@@ -40,6 +40,8 @@ def run_stream(run, comp, cases, rundir, name, case_type, code_fn, prop_bits, co
     for case, err, tb in impl_errors[:max_report]:
         run.violation({"stream": label, "kind": "implementation raised on a valid input", "error": err,
                        "traceback": tb, "case": comp.jsonable(case)})
+    n_known, known_example = {}, {}
+
     def _is(code, which):
         return any(code >> k & 1 for k in which)
     # failing inputs (a verified checker rejects an implementation output) are reported first;
@@ -51,6 +53,14 @@ def run_stream(run, comp, cases, rundir, name, case_type, code_fn, prop_bits, co
         bits = [k for k in range(16) if code >> k & 1]
         case, res = kept[idx], results[idx]
         is_prop = _is(code, prop_bits)
+        if is_prop and known is not None:
+            # known(case, res, code) -> text of a finding listed in known_findings.json, or None
+            what = known(case, res, code)
+            if what:
+                n_known[what] = n_known.get(what, 0) + 1
+                if n_known[what] == 1:
+                    known_example[what] = comp.jsonable(case, res)
+                continue
         if is_prop:
             n_prop += 1
             if n_prop > max_report:
@@ -74,6 +84,9 @@ def run_stream(run, comp, cases, rundir, name, case_type, code_fn, prop_bits, co
                            "case, but every verified checker of this property accepts the implementation's output")
             rep["no_longer_checks"] = "correspondence stream %s (model %s vs implementation)" % (label, code_fn)
             run.violation(rep, no_input=True)
+    for what, n in n_known.items():
+        run.known_finding(what, n)
+        run.coverage.setdefault("known_finding_examples", []).append({"what": what, "case": known_example[what]})
     c = run.coverage
     c["evaluations"] += len(kept) + len(impl_errors)
     c["distinct_nontrivial"] += len(distinct)
